@@ -361,33 +361,57 @@ def c_oriented(rng):
 
 # ------------------------------------------------------------------ C01
 
+def _boxes_for(kind, cs, rng):
+    """query boxes for one array: a random one plus boxes aimed at the decisive positions"""
+    boxes = [gen.box(rng, positive=(kind not in ('point', 'multipoint')) or rng.random() < 0.7)]
+    view = cs.view
+    fc = [c for el in view if el is not None for c in oracle.flat_coords(kind, el) if math.isfinite(c)]
+    if len(fc) >= 2:
+        # through a vertex (ties)
+        k = rng.randrange(len(fc) // 2)
+        b0 = boxes[0]
+        boxes.append((fc[2 * k], fc[2 * k + 1], b0[2] if b0[2] != fc[2 * k] else b0[2] + 1, b0[3] if b0[3] != fc[2 * k + 1] else b0[3] + 1))
+        # corners strictly between coordinates (the box is a float box whatever the coordinate subtype)
+        k = rng.randrange(len(fc) // 2)
+        vx, vy = fc[2 * k], fc[2 * k + 1]
+        sx, sy = rng.choice([(0.5, -1.0), (-2.5, -1.0), (-1.0, 0.5), (-1.0, -2.5), (0.25, 0.25)])
+        boxes.append((vx + sx, vy + sy, vx + sx + 2.0, vy + sy + 2.0))
+    if kind in ('polygon', 'multipolygon'):
+        rings = [r for el in view if el is not None for r in oracle.parts(kind, el) if len(r) >= 6]
+        if rings:
+            # around the centre of a ring's bounding box: strictly inside the solid part or inside a hole
+            r = rng.choice(rings)
+            cxr, cyr = (min(r[0::2]) + max(r[0::2])) / 2, (min(r[1::2]) + max(r[1::2])) / 2
+            dx, dy = rng.choice([0.25, 0.5, 0.75]), rng.choice([0.25, 0.5])
+            boxes.append((cxr - dx, cyr - dy, cxr + dx, cyr + dy))
+        polys = [p for el in view if el is not None for p in ([el] if kind == 'polygon' else el) if len(p) >= 2]
+        for _ in range(2):
+            if polys:
+                # on the straight line from the end of one ring to the start of the next ring of the same polygon (no such
+                # segment exists: rings are separate closed curves)
+                p_ = rng.choice(polys)
+                k = rng.randrange(len(p_) - 1)
+                if len(p_[k]) >= 2 and len(p_[k + 1]) >= 2:
+                    ax, ay, bx_, by_ = p_[k][-2], p_[k][-1], p_[k + 1][0], p_[k + 1][1]
+                    t = rng.choice([0.25, 0.5, 0.75])
+                    mx, my = ax + t * (bx_ - ax), ay + t * (by_ - ay)
+                    d_ = rng.choice([0.125, 0.25])
+                    boxes.append((mx - d_, my - d_, mx + d_, my + d_))
+    return boxes
+
+
 @check(('C01', 'C17', 'C16'), 'array.intersects_bounds')
 def c_intersects_bounds(rng):
     kind = rng.choice(gen.KINDS)
     cs = gen.case(kind, rng)
-    bx = gen.box(rng, positive=(kind not in ('point', 'multipoint')) or rng.random() < 0.7)
-    if rng.random() < 0.3 and len(cs.view):      # make ties likely: box through a vertex of some element
-        fc = [c for el in cs.view if el is not None for c in oracle.flat_coords(kind, el)]
-        if len(fc) >= 2:
-            k = rng.randrange(len(fc) // 2)
-            bx = (fc[2 * k], fc[2 * k + 1], bx[2] if bx[2] != fc[2 * k] else bx[2] + 1, bx[3] if bx[3] != fc[2 * k + 1] else bx[3] + 1)
-    elif kind in ('polygon', 'multipolygon') and rng.random() < 0.4 and len(cs.view):
-        # a small box around the centre of some ring's bounding box: strictly inside the solid part or inside a hole
-        rings = [r for el in cs.view if el is not None for r in oracle.parts(kind, el) if len(r) >= 6]
-        if rings:
-            r = rng.choice(rings)
-            cxr, cyr = (min(r[0::2]) + max(r[0::2])) / 2, (min(r[1::2]) + max(r[1::2])) / 2
-            dx, dy = rng.choice([0.25, 0.5, 0.75]), rng.choice([0.25, 0.5])
-            bx = (cxr - dx, cyr - dy, cxr + dx, cyr + dy)
-    elif rng.random() < 0.35 and len(cs.view):
-        # a box whose corners lie strictly between coordinates (halves next to a vertex): the box is a float box
-        # whatever the coordinate subtype of the array
-        fc = [c for el in cs.view if el is not None for c in oracle.flat_coords(kind, el) if math.isfinite(c)]
-        if len(fc) >= 2:
-            k = rng.randrange(len(fc) // 2)
-            vx, vy = fc[2 * k], fc[2 * k + 1]
-            sx, sy = rng.choice([(0.5, -1.0), (-2.5, -1.0), (-1.0, 0.5), (-1.0, -2.5), (0.25, 0.25)])
-            bx = (vx + sx, vy + sy, vx + sx + 2.0, vy + sy + 2.0)
+    for bx in _boxes_for(kind, cs, rng):
+        out = _check_box(kind, cs, bx, rng)
+        if out:
+            return out
+    return []
+
+
+def _check_box(kind, cs, bx, rng):
     out = []
     exp = [oracle.intersects_bounds(kind, el, bx) for el in cs.view]
     got = cs.arr.intersects_bounds(bx)
